@@ -57,15 +57,17 @@ class Runner:
         ents = json.load(open(path))["findings"] if os.path.exists(path) else []
         return [e for e in ents if e["property"] == self.pid]
 
-    def drive_args(self, extra, without=None):
-        a = [self.bin, "--prop", self.pid, "--tier", "1" if self.tier == "thorough" else "0"]
+    def drive_args(self, extra, without=None, quick_decode=False):
+        # committed replay files (regressions, witnesses) were recorded with the quick-tier decoder and are always replayed with it
+        a = [self.bin, "--prop", self.pid, "--tier", "1" if (self.tier == "thorough" and not quick_decode) else "0"]
         kn = [e["id"] for e in self.known() if e["status"] == "known" and e["id"] != without]   # exclusions are per property: each affected property lists its own entry and witness
         if kn: a += ["--known", ",".join(kn)]
         return a + extra
 
     def replay(self, path, no_exclude=False, text=False, budget=None, without=None):
         wd = os.path.join(self.work, "replay"); os.makedirs(wd, exist_ok=True)
-        a = self.drive_args(["--mode", "replay", "--replay", path, "--workdir", wd], without=without)
+        committed = os.path.abspath(path).startswith(os.path.join(VERIF, "replays") + os.sep)
+        a = self.drive_args(["--mode", "replay", "--replay", path, "--workdir", wd], without=without, quick_decode=committed)
         if no_exclude: a.append("--no-exclude")
         if text: a.append("--text")
         if budget: a += ["--budget", str(budget)]
@@ -185,7 +187,8 @@ class Runner:
                 line = f"KNOWN-FINDING: property={self.pid} {e['id']}: {e['what']}"
                 print(line); self.known_lines.append(line)
             else:
-                self.confirm_and_record(open(w, "rb").read(), k, s, f"witness-mismatch:{e['id']}")
+                self.notes.append(f"witness of known finding {e['id']} fails differently than recorded ({k} {s}): re-examine {e['witness']}")
+                self.violations.append((w, f"{k} {s} origin=witness-mismatch:{e['id']}"))
 
     def generate(self):
         t = self.cfg[self.tier]
